@@ -21,6 +21,10 @@ RULE = ('specification graphs of 3-10 nodes of mixed kinds (InterfaceClass, '
 GC_EVERY = 40
 
 
+# thorough tier: coverage-guided campaigns on top of the random ones
+ATHERIS = [{'impl': 'py', 'n': 30000, 'name': 'py-atheris'},
+           {'impl': 'c', 'n': 30000, 'name': 'c-atheris'}]
+
 def configs(tier, seed):
     n = 900 if tier == 'quick' else 15000
     return [{'name': impl + '-rebase', 'impl': impl, 'mode': 'hyp', 'n': n}
